@@ -213,7 +213,19 @@ func (c *Ctx) RunCase(f func(*Ctx)) {
 				return
 			}
 			msg := fmt.Sprintf("panic: %v", r)
-			c.fail(c.cur, "panic", panicClass(msg), msg, string(debug.Stack()))
+			stack := string(debug.Stack())
+			kind := "panic"
+			if !strings.Contains(stack, "github.com/emirpasic/gods/v2/") {
+				// no library frame on the stack: the panic was raised in monitor
+				// code (while using a library result, or by a monitor bug) - still
+				// reported, but labelled so that triage starts in the right place
+				kind = "panic-outside-library-frames"
+			}
+			if c.Only != nil && kind != "panic" {
+				c.St.Counters["case-ended-by-another-property's-oracle(not reported here)"]++
+				return
+			}
+			c.fail(c.cur, kind, panicClass(msg), msg, stack)
 		}
 	}()
 	f(c)
